@@ -163,9 +163,9 @@ Section Obs.
   Qed.
 
   (* the hook's stdout and exit status are what main prescribes, whatever the sinks do *)
-  Lemma run_out i : r_stdout (run C f ts i) = expected i /\ r_exit (run C f ts i) = 0%nat.
+  Lemma run_out i : r_stdout (hook_run C f ts i) = expected i /\ r_exit (hook_run C f ts i) = 0%nat.
   Proof.
-    unfold run. destruct (eff_setup init) as [Hs Ho]. destruct (setup C f init) as [s1 crashed]; simpl in Hs, Ho.
+    unfold hook_run. destruct (eff_setup init) as [Hs Ho]. destruct (setup C f init) as [s1 crashed]; simpl in Hs, Ho.
     subst crashed. destruct (eff_body i s1) as [Hr Hb]. destruct (body C f ts i s1) as [s2 raised]; simpl in Hr, Hb.
     rewrite Ho in Hb. simpl in Hb. subst raised. destruct (raising i) eqn:R.
     - assert (E : eff (bind (emit f Error) (lift (print OEmpty))) [OEmpty] false)
@@ -181,7 +181,7 @@ Proof. reflexivity. Qed.
 
 (* C15_observer *)
 Lemma observer : forall ts1 ts2 i f1 f2, realistic f1 -> realistic f2 ->
-  let a := run head f1 ts1 i in let b := run head f2 ts2 i in let c := run_nolog i in
+  let a := hook_run head f1 ts1 i in let b := hook_run head f2 ts2 i in let c := run_nolog i in
   r_stdout a = r_stdout b /\ r_exit a = r_exit b /\ r_stdout a = r_stdout c /\ r_exit a = r_exit c.
 Proof.
   intros ts1 ts2 i f1 f2 H1 H2.
@@ -193,7 +193,7 @@ Qed.
 
 (* the same for any catch table, as long as every fault is caught where it arises *)
 Lemma observer_gen : forall C ts i f, handled C f ->
-  r_stdout (run C f ts i) = r_stdout (run_nolog i) /\ r_exit (run C f ts i) = r_exit (run_nolog i).
+  r_stdout (hook_run C f ts i) = r_stdout (run_nolog i) /\ r_exit (hook_run C f ts i) = r_exit (run_nolog i).
 Proof.
   intros C ts i f Hf. destruct (run_out C f ts Hf i) as [A1 A2].
   destruct (run_out head nofault [] (realistic_handled _ nofault_realistic) (strip_log i)) as [C1 C2].
@@ -212,19 +212,19 @@ Definition setup_value_fault : faults := fun s _ => match s with SetupMkdir => S
 (* the pre-repair code: a ValueError (NUL in the log path) at configure_logging, or the
    RuntimeError of expanduser, reaches main's generic handler and the verdict becomes {} *)
 Lemma legacy_refuted :
-  exists i f, realistic f /\ r_stdout (run legacy f [] i) <> r_stdout (run_nolog i).
+  exists i f, realistic f /\ r_stdout (hook_run legacy f [] i) <> r_stdout (run_nolog i).
 Proof. exists a_check, cfg_value_fault. split; [|vm_compute; discriminate].
   intros k e; repeat split; simpl; try discriminate. intro E; injection E as <-; auto. Qed.
 Lemma legacy_expand_refuted :
-  exists i f, realistic f /\ r_stdout (run legacy f [] i) <> r_stdout (run_nolog i).
+  exists i f, realistic f /\ r_stdout (hook_run legacy f [] i) <> r_stdout (run_nolog i).
 Proof. exists a_check, expand_rt_fault. split; [|vm_compute; discriminate].
   intros k e; repeat split; simpl; try discriminate. intro E; injection E as <-; auto. Qed.
 (* the hypothesis on the setup site is needed: setup_logging catches OSError only *)
 Lemma setup_unrealistic_refuted :
-  exists i f, r_exit (run head f [] i) <> r_exit (run_nolog i) /\ r_stdout (run head f [] i) <> r_stdout (run_nolog i).
+  exists i f, r_exit (hook_run head f [] i) <> r_exit (run_nolog i) /\ r_stdout (hook_run head f [] i) <> r_stdout (run_nolog i).
 Proof. exists a_check, setup_value_fault. split; vm_compute; discriminate. Qed.
 (* a failing approvals sink is not silent on stderr (logging.raiseExceptions) *)
 Lemma traceback_refuted :
-  exists i f, realistic f /\ r_tracebacks (run head f [] i) <> r_tracebacks (run_nolog i).
+  exists i f, realistic f /\ r_tracebacks (hook_run head f [] i) <> r_tracebacks (run_nolog i).
 Proof. exists a_check, emit_fails. split; [|vm_compute; discriminate].
   intros k e; repeat split; simpl; discriminate. Qed.
